@@ -29,6 +29,7 @@ func wHarnesses() []*hysim.Harness {
 	return append([]*hysim.Harness{
 		{Name: "c01", Gen: genC01, Exec: execC01, LeakOK: true, Isolate: true},
 		{Name: "c02", Gen: genC02, Exec: execC01, LeakOK: true, Isolate: true},
+		{Name: "c15w", Gen: genC15w, Exec: execC01, LeakOK: true, Isolate: true},
 	}, wExtra...)
 }
 
@@ -43,6 +44,15 @@ var (
 )
 
 func genC01(r *hysim.Rand, tier string) *hysim.Script { return genC0x(r, tier, false) }
+
+// C15 (online notifications are paired exactly) on the C01 workload: hostile raw clients that
+// repeat, mix and interleave auth requests; the traffic logger is always installed.
+func genC15w(r *hysim.Rand, tier string) *hysim.Script {
+	sc := genC0x(r, tier, false)
+	sc.Cfg["logger"] = 1
+	sc.Cfg["c15w"] = 1
+	return sc
+}
 func genC02(r *hysim.Rand, tier string) *hysim.Script { return genC0x(r, tier, true) }
 
 func genC0x(r *hysim.Rand, tier string, c02 bool) *hysim.Script {
@@ -187,6 +197,20 @@ func execC01(x *hysim.Run) {
 		cw.checkOutbound("checkudp", reqAddr, x.Seq())
 		return nil
 	}
+	online := map[string]int{}   // net count per user as the TrafficLogger is told
+	onlineUp := map[string]int{} // number of "online" notifications per user
+	w.onOnline = func(id string, on bool) {
+		x.Ev("LogOnlineState(%q, %v)", id, on)
+		if on {
+			online[id]++
+			onlineUp[id]++
+		} else {
+			online[id]--
+			if online[id] < 0 && sc.Get("c15w", 0) == 1 {
+				x.Violate("offline-without-online", "user %q reported offline more often than online (net %d)", id, online[id])
+			}
+		}
+	}
 	so := wServerOpts{DisableUDP: cw.udpOff, Logger: sc.Get("logger", 0) == 1, UDPIdle: 10 * time.Second}
 	if cw.customM {
 		so.Masq = masqHandler{}
@@ -252,6 +276,42 @@ func execC01(x *hysim.Run) {
 	}
 	w.stopServer()
 	time.Sleep(2 * time.Second)
+	if sc.Get("c15w", 0) == 1 {
+		// every connection is gone: nobody may still be listed, and each accepted connection was
+		// announced exactly once
+		acceptedBy := map[string]int{}
+		for _, c := range cw.conns {
+			if c.rc == nil {
+				continue
+			}
+			if _, ok := w.accepted[c.rc.local]; ok {
+				for _, a := range w.authCalls {
+					if a.addr == c.rc.local && a.ok {
+						acceptedBy[a.id]++
+						break
+					}
+				}
+			}
+		}
+		for _, u := range sortedKeys(onlineUp) {
+			if onlineUp[u] != acceptedBy[u] {
+				x.Violate("online-notifications-not-paired", "user %q was reported online %d times for %d authenticated connections", u, onlineUp[u], acceptedBy[u])
+			}
+		}
+		for _, u := range sortedKeys(online) {
+			if online[u] != 0 {
+				x.Violate("online-stale", "all connections are closed and the server is stopped, but user %q still has a net online count of %d", u, online[u])
+			}
+		}
+		for _, u := range sortedKeys(acceptedBy) {
+			if onlineUp[u] == 0 {
+				x.Violate("online-notifications-not-paired", "user %q authenticated %d connections but was never reported online", u, acceptedBy[u])
+			}
+		}
+		if len(acceptedBy) > 0 {
+			x.Probe("online-pairing-checked")
+		}
+	}
 	if left := x.WaitTasks(700 * time.Second); len(left) > 0 {
 		x.Probe("tasks-left-at-end")
 	}
